@@ -554,6 +554,31 @@ impl Monitors {
                     }
                     let rqv = core.requests.get(t.resource_rq_id.into());
                     if rqv.is_multi_node() {
+                        // a multi-node task: enough idle workers with enough lifetime in one group
+                        let rq = rqv.unwrap_first();
+                        let n = rq.n_nodes() as usize;
+                        let mut per_group: BTreeMap<&str, usize> = BTreeMap::new();
+                        for w in &idle {
+                            let h = sim.workers.get(&w.id.as_num());
+                            let time_ok = match h.and_then(|h| h.spec.time_limit_s.map(|l| h.connected_at_s + l)) {
+                                Some(end) => vnow + rq.min_time().as_secs() + 1 < end,
+                                None => true,
+                            };
+                            if time_ok {
+                                *per_group.entry(w.group.as_str()).or_insert(0) += 1;
+                            }
+                        }
+                        if let Some((g, k)) = per_group.iter().find(|(_, k)| **k >= n) {
+                            self.count("rest_points_with_ready_multinode_task_and_idle_group", 1);
+                            viol(
+                                out,
+                                step,
+                                "C02",
+                                "S3-ready-multinode-task-not-run-at-rest",
+                                format!("at rest task {:?} asking for {n} nodes is ready while group {g} has {k} idle workers with enough lifetime", conv::tid(t.id)),
+                            );
+                            break;
+                        }
                         continue;
                     }
                     let fits = |w: &tako::verif::WorkerSnapshot| {
